@@ -41,7 +41,7 @@ func c16CaseCwd(c *c16Case) string {
 	switch c.Kind {
 	case 0:
 		switch c.FS {
-		case 1, 8, 11:
+		case 1, 8, 11, 16:
 			return "W"
 		case 9, 10, 12, 13:
 			return "root"
@@ -54,9 +54,11 @@ func c16CaseCwd(c *c16Case) string {
 			return "root"
 		case c.Variant == 21, c.Variant == 22, c.Variant == 23, c.Variant == 25:
 			return "W"
+		case c.Variant >= 30 && c.Variant <= 35:
+			return "W"
 		}
 	case 2:
-		if c.Variant == 6 {
+		if c.Variant == 6 || c.Variant == 10 || c.Variant == 11 {
 			return "W"
 		}
 	}
